@@ -24,6 +24,8 @@ class Recorder:
 
     def __init__(self):
         self.calls = []      # dicts, in global order
+        self.seq = []        # global order of evaluator calls and of meta-events received by recorders:
+                             # ('call', interp id) | ('meta', recorder id, meta value)
         self.ids = {}        # id(interpreter) -> small int
 
     def interp_id(self, interp):
@@ -158,6 +160,7 @@ def make_recording_evaluator(rec):
             before = ctx_value(self._context)
             entry = dict(op='exec', sig=sig, ctx=before, result=None)
             rec.calls.append(entry)
+            rec.seq.append(('call', sig['interp']))
             try:
                 sent = super_call()
             except CodeEvaluationError:
@@ -189,6 +192,7 @@ def make_recording_evaluator(rec):
             sig = self._sig(kind, obj, idx, code, additional_context, 'eval')
             entry = dict(op='eval', sig=sig, ctx=ctx_value(self._context), result=None)
             rec.calls.append(entry)
+            rec.seq.append(('call', sig['interp']))
             try:
                 r = super()._evaluate_code(code, additional_context=additional_context)
             except CodeEvaluationError:
@@ -325,13 +329,15 @@ class Scenario:
     """One monitored interpreter with its listeners, driven operation by operation."""
 
     def __init__(self, sc, ignore_contract=False, initial_context=None, props=(), n_rec=1,
-                 bound_callables=0, bound_charts=(), listener_order=None, fuel=40):
+                 bound_callables=0, bound_charts=(), listener_order=None, fuel=40, plain=False):
+        """plain=True: the stock Interpreter and PythonEvaluator, no recording and no probing (the harness then reads
+        nothing but states and outcomes, so it cannot disturb anything the implementation may remember between calls)."""
         self.rec = Recorder()
-        self.klass = make_recording_evaluator(self.rec)
+        self.klass = PythonEvaluator if plain else make_recording_evaluator(self.rec)
         self.sc = sc
         self.clock = SimulatedClock()
         self.sel_holder = {}
-        self.interp = make_recording_interpreter(self.sel_holder)(
+        self.interp = (Interpreter if plain else make_recording_interpreter(self.sel_holder))(
             sc, evaluator_klass=self.klass, initial_context=initial_context,
             clock=self.clock, ignore_contract=ignore_contract)
         self.rec.interp_id(self.interp)   # id 0
@@ -359,7 +365,13 @@ class Scenario:
         lid = len(self.listeners)
         if kind == 'rec':
             self.logs[lid] = []
-            fn = (lambda l: (lambda m: l.append(meta_value(m))))(self.logs[lid])
+            def mk(l, lid, rec):
+                def fn(m):
+                    mv = meta_value(m)
+                    l.append(mv)
+                    rec.seq.append(('meta', lid, mv))
+                return fn
+            fn = mk(self.logs[lid], lid, self.rec)
             self.interp.attach(fn)
             obj = fn
         elif kind == 'callable':
@@ -439,6 +451,7 @@ class Scenario:
         pre = snap_interp(self.interp, self.rec)
         wpre = self.world()
         n0 = len(self.rec.calls)
+        q0 = len(self.rec.seq)
         for l in self.logs.values():
             del l[:]
         for l in self.calls.values():
@@ -464,8 +477,16 @@ class Scenario:
         post = snap_interp(self.interp, self.rec)
         wpost = self.world()
         calls = self.rec.calls[n0:]
+        # interleaving of the monitored interpreter's evaluator calls with the meta-events, as seen by the FIRST
+        # listener when that is a recorder (it then receives every meta-event, also the one on which a later listener raises)
+        seq = None
+        active = [(k, lid) for k, lid, _, on in self.listeners if on]
+        if active and active[0][0] == 'rec' and not isinstance(self.klass, type(None)) and self.klass is not PythonEvaluator:
+            first = active[0][1]
+            seq = [None if x[0] == 'call' else x[2] for x in self.rec.seq[q0:]
+                   if (x[0] == 'call' and x[1] == 0) or (x[0] == 'meta' and x[1] == first)]
         return dict(op=op, pre=pre, wpre=wpre, out=out, post=post, wpost=wpost, calls=calls,
-                    selected=self.sel_holder.get('selected'))
+                    selected=self.sel_holder.get('selected'), seq=seq)
 
 
 def macro_value(interp, m):
